@@ -9,6 +9,7 @@ import (
 func registerExtraIntrinsics() {
 	intrinsics["(*math/big.Int).SetString"] = inBigSetString
 	intrinsics["(*math/big.Int).Text"] = inBigText
+	registerURLIntrinsics()
 }
 
 // math/big by contract.  Concrete text is evaluated natively; symbolic text is
